@@ -177,9 +177,10 @@ def c13(run):
                  note="every call sequence of the bounded builder model; invariants: domains consistent, accepted specs "
                       "total, region lemma for the verdict")
     if not full:
-        s = run.seed % 3
-        total, kept = _sample(scen, lambda k, r: r["verdict"] != "MustReject" or k % 3 == s)
-        run.extra["quick_sample"] = "all MustAccept/Either behaviours and every 3rd MustReject: %d of %d" % (kept, total)
+        s = run.seed % 6
+        total, kept = _sample(scen, lambda k, r: (r["verdict"] == "MustAccept") or (r["verdict"] == "Either" and k % 2 == s % 2)
+                              or k % 6 == s)
+        run.extra["quick_sample"] = "all MustAccept, half of the Either and every 6th MustReject behaviour: %d of %d" % (kept, total)
     out, info = _drive(run, "builder", verb="replay", sub="replay", extra=["--scen", scen], timeout=1800)
     out2, info2 = _drive(run, "builder", sub="random")
     nt = lambda r: sum(1 for c in r.get("calls", []) if c["op"] == "add") >= 2
